@@ -42,12 +42,17 @@ Expected2x(d) == [cm3 |-> d.file # "adf22bmp", outcome |-> "ok"]
 
 \* ADF15: transition blocks in file order, index (ISEL) table in the comments, three header conventions
 \* rule: is the index table's column header followed by a dashed rule line (the open-ADAS layout) or directly by the first row
-Adf15Docs == {[kind |-> "adf15", header |-> h, nb |-> nb, nd |-> nd, nt |-> nt, perm |-> p, missing |-> ms, rule |-> ru] :
-                 h \in {"hydrogen", "hydrogen-like", "full"}, nb \in 1..3, nd \in (IF Deep THEN {1, 3, 8, 9, 16, 17} ELSE {1, 3, 9}), nt \in (IF Deep THEN {2, 7, 8, 9, 11, 17} ELSE {2, 8, 11}), p \in BOOLEAN, ms \in BOOLEAN, ru \in BOOLEAN}
-BlockType(k) == CASE k = 1 -> "excitation" [] k = 2 -> "recombination" [] k = 3 -> "thermalcx"
+\* (eleven blocks only under the two hydrogen-style conventions: the synthetic configuration table of the "full" convention is
+\* written for single-digit level numbers)
+Adf15DocsAll == {[kind |-> "adf15", header |-> h, nb |-> nb, nd |-> nd, nt |-> nt, perm |-> p, missing |-> ms, rule |-> ru] :
+                 h \in {"hydrogen", "hydrogen-like", "full"}, nb \in {1, 2, 3, 11}, nd \in (IF Deep THEN {1, 3, 8, 9, 16, 17} ELSE {1, 3, 9}), nt \in (IF Deep THEN {2, 7, 8, 9, 11, 17} ELSE {2, 8, 11}), p \in BOOLEAN, ms \in {"none", "extra", "low"}, ru \in BOOLEAN}
+Adf15Docs == {d \in Adf15DocsAll : d.nb = 11 => d.header # "full"}
+\* missing: "extra" - the index lists one block more than the file holds; "low" - the data block ISEL = 1 is not in the file
+\* although the index lists it (with eleven blocks the file then still holds blocks 10 and 11, whose numbers begin with a 1)
+BlockType(k) == CASE k % 3 = 1 -> "excitation" [] k % 3 = 2 -> "recombination" [] k % 3 = 0 -> "thermalcx"
 \* with perm the index table lists the blocks in reverse order: the assignment must follow ISEL, not position
 Expected15(d) == [blocks |-> [k \in 1..d.nb |-> [isel |-> k, cls |-> BlockType(k), upper |-> k + 2, lower |-> k + 1, wavelength_A |-> 1000 * k + 5]],
-                  outcome |-> IF d.missing THEN "RuntimeError" ELSE "ok"]
+                  outcome |-> IF d.missing # "none" THEN "RuntimeError" ELSE "ok"]
 
 \* ADF12: nblk blocks of five 1-D tables with fixed capacities 24 / 12 and the counts actually used
 Adf12Docs == {[kind |-> "adf12", nblk |-> nb, neb |-> a, nti |-> b, nni |-> cc, nz |-> dd, nbm |-> e] :
